@@ -149,6 +149,7 @@ impl Check for C07 {
                 let before_tcp = world::with(|w| w.net.connect_log.len()).unwrap_or(0);
                 let before_udp = world::with(|w| w.net.udp_log.len()).unwrap_or(0);
                 let mut udp_local: Option<SocketAddr> = None;
+                let mut udp_app: Option<SocketAddr> = None;
                 let sig_kind = format!("{}:{}", via, if is_name { "name" } else if host.contains(':') { "ipv6" } else { "ipv4" });
                 if via == "burst" {
                     let mut ports: Vec<u16> = vec![port];
@@ -213,6 +214,7 @@ impl Check for C07 {
                             Ok(Ok(local)) => match UdpSocket::bind("127.0.0.1:0").await {
                                 Ok(app) if { udp_local = Some(local); false } => { let _ = app; Ok(()) }
                                 Ok(app) => {
+                                    udp_app = app.local_addr().ok();
                                     let _ = app.send_to(format!("dgram-{}", ri).as_bytes(), local).await;
                                     sleep(Duration::from_secs(5)).await;
                                     Ok(())
@@ -231,7 +233,7 @@ impl Check for C07 {
                 }
                 // which destination was dialled?
                 if via == "udp" {
-                    let sent: Vec<SocketAddr> = world::with(|w| w.net.udp_log[before_udp..].iter().filter(|u| Some(u.to) != udp_local).map(|u| u.to).collect()).unwrap_or_default();
+                    let sent: Vec<SocketAddr> = world::with(|w| w.net.udp_log[before_udp..].iter().filter(|u| Some(u.to) != udp_local && Some(u.to) != udp_app).map(|u| u.to).collect()).unwrap_or_default();
                     let want = SocketAddr::new(allowed[0], port);
                     if sent.len() != 1 || sent[0] != want {
                         out.viol("wrong-destination", format!("wrong-destination:{}", sig_kind), format!("request #{}: UDP association for {} — datagrams left for {:?}", ri, want, sent));
